@@ -105,7 +105,13 @@ def _tree_entries(path: bytes, tree: Tree) -> list[TreeEntry]:
     if not tree:
         return result
     for entry in tree.iteritems(name_order=True):
-        result.append(entry.in_path(path))
+        # Plain concatenation, as in a tree walk (and in the Rust
+        # implementation); posixpath.join() would drop the path in front of a
+        # name starting with "/" and add no "/" after a path ending in one.
+        if not isinstance(entry.path, bytes):
+            raise TypeError(f"Expected bytes for path, got {entry.path!r}")
+        entry_path = path + b"/" + entry.path if path else entry.path
+        result.append(TreeEntry(entry_path, entry.mode, entry.sha))
     return result
 
 
